@@ -97,8 +97,9 @@ class Gen:
             d = {}
             for k, c in md.map.items():
                 if k.endswith("*"):
-                    for i in range(self.pick([0, 0, 1, 2])):
-                        d[k.replace("*", str(i + 1))] = self.gen(c, depth + 1)
+                    n = self.pick([0, 0, 1, 2, 3])
+                    for suf in self.star_suffixes(n):
+                        d[k.replace("*", suf)] = self.gen(c, depth + 1)
                 else:
                     d[k] = self.gen(c, depth + 1)
             return d
@@ -132,6 +133,18 @@ class Gen:
         if g == "SuitTag":
             return {md.tag.name: self.gen(md.children[0], depth + 1)}
         raise ValueError(f"no generator for {name} ({g})")
+
+    def star_suffixes(self, n):
+        """Suffixes of the keys of a repeated (starred) tuple member: numbered (the names parse produces, incl. two-digit
+        ones that do not sort numerically) or free names in an order that is not lexicographic."""
+        if n == 0:
+            return []
+        style = self.rng.randrange(3)
+        if style == 0:
+            return [str(i + 1) for i in range(n)]
+        if style == 1:
+            return ["Vendor", "Operator", "Device", "Backup", "Aux"][:n] if n <= 5 else [str(i + 1) for i in range(n)]
+        return [str(i + 9) for i in range(n)]          # 9, 10, 11: "10" sorts before "9"
 
     def gen_key(self, kc, depth):
         """Key of an unnamed map as it appears in a description (a string; JSON for non-string key types)."""
@@ -319,8 +332,9 @@ class Gen:
         auth = {"SuitDigest": {"suit-digest-algorithm-id": self.pick(ALGS)}}
         if self.rng.random() < 0.4:
             auth["SuitDigest"]["suit-digest-bytes"] = self.hexbytes(32)
-        if self.rng.random() < 0.3:
-            auth["SuitAuthentication1"] = self.auth_block(depth)
+        nblocks = self.pick([0, 0, 0, 1, 1, 2, 3, 4] + ([11] if self.big or self.rng.random() < 0.1 else []))
+        for suf in self.star_suffixes(nblocks):
+            auth["SuitAuthentication" + suf] = self.auth_block(depth)
         top = {"suit-authentication-wrapper": auth, "suit-manifest": man}
         items = list(env.items())
         self.rng.shuffle(items)
